@@ -372,8 +372,15 @@ func histDigest(h hist) uint64 {
 	return binary.LittleEndian.Uint64(d[:8])
 }
 
+// stateHook is false when the STROBE state can no longer be read from the tree under test through the
+// reflection hooks; state comparisons are then skipped (outputs are still compared, the run is capped).
+var stateHook = true
+
 // observe compares the real state of o with its reference twin and records the state key.
 func (x *exec) observe(o *tracked, after string) {
+	if !stateHook {
+		return
+	}
 	s := o.realStrobe()
 	if s == nil {
 		x.fail("merlin/"+after+"/object", "%s: the %s has no STROBE state after %s", o.role, [...]string{"transcript", "builder", "rng"}[o.typ], after)
@@ -429,6 +436,53 @@ func clip(b []byte) string {
 
 func garbage(n int) []byte { return bytes.Repeat([]byte{0xa5}, n) }
 
+// Caller memory (theme T1): every byte-slice argument is handed over as a sub-slice of a larger buffer,
+// with guard bytes in front of it and, inside its spare CAPACITY, behind it.  Inputs must be unchanged and
+// the guards intact after the call (an append to the argument, an off-by-one write, a wipe of the caller's
+// buffer would show).
+const (
+	guardLen  = 24
+	guardByte = 0xc3
+)
+
+type guarded struct {
+	buf  []byte
+	n    int
+	fill byte
+}
+
+func newGuarded(n int, fill byte) *guarded {
+	g := &guarded{buf: make([]byte, n+2*guardLen), n: n, fill: fill}
+	for i := range g.buf {
+		g.buf[i] = guardByte
+	}
+	for i := 0; i < n; i++ {
+		g.buf[guardLen+i] = fill
+	}
+	return g
+}
+
+// slice has length n and capacity n+guardLen (the trailing guard lies in the spare capacity).
+func (g *guarded) slice() []byte { return g.buf[guardLen : guardLen+g.n] }
+
+func (g *guarded) guardsIntact() bool {
+	for i := 0; i < guardLen; i++ {
+		if g.buf[i] != guardByte || g.buf[guardLen+g.n+i] != guardByte {
+			return false
+		}
+	}
+	return true
+}
+
+func (g *guarded) dataIntact() bool {
+	for _, b := range g.slice() {
+		if b != g.fill {
+			return false
+		}
+	}
+	return true
+}
+
 // apply executes p on the real object cur and on its reference twin and
 // returns the object the history continues on.  step is used to alternate
 // nil / empty slices for zero-length arguments.
@@ -441,7 +495,8 @@ func (x *exec) apply(cur *tracked, p op, step int) *tracked {
 	name := kindName[p.kind]
 	switch p.kind {
 	case kAppend, kRekey:
-		d := dataOf(p)
+		g := newGuarded(p.n, p.fillByte())
+		d := g.slice()
 		if p.n == 0 && step%2 == 1 {
 			d = nil
 		}
@@ -452,24 +507,32 @@ func (x *exec) apply(cur *tracked, p op, step int) *tracked {
 				x.fail("merlin/RekeyWithWitnessBytes/return", "RekeyWithWitnessBytes did not return its receiver")
 			}
 		}
-		if !bytes.Equal(d, dataOf(p)) && !(d == nil && p.n == 0) {
-			x.fail("merlin/"+name+"/input-modified", "%s modified the caller's data buffer", p)
+		if !g.dataIntact() || !g.guardsIntact() {
+			x.fail("merlin/"+name+"/caller-memory", "%s modified the caller's buffer (data intact: %v, guard bytes around it intact: %v)", p, g.dataIntact(), g.guardsIntact())
 		}
 		refApply(cur, p)
 		cur.h.ops = append(cur.h.ops, p)
 		x.observe(cur, name)
 	case kExtract:
-		dest := garbage(p.n)
+		g := newGuarded(p.n, 0xa5)
+		dest := g.slice()
 		cur.t.ExtractBytes(dest, labelOf(p.label))
+		if !g.guardsIntact() {
+			x.fail("merlin/ExtractBytes/caller-memory", "%s wrote outside its destination", p)
+		}
 		want := refApply(cur, p)
 		cur.h.ops = append(cur.h.ops, p)
 		x.output(cur, p, dest, want)
 		x.observe(cur, name)
 	case kRead:
-		dest := garbage(p.n)
+		g := newGuarded(p.n, 0xa5)
+		dest := g.slice()
 		n, err := cur.r.Read(dest)
 		if n != p.n || err != nil {
 			x.fail("merlin/Read/return", "Read(%d) returned (%d, %v)", p.n, n, err)
+		}
+		if !g.guardsIntact() {
+			x.fail("merlin/Read/caller-memory", "%s wrote outside its destination", p)
 		}
 		want := refApply(cur, p)
 		cur.h.ops = append(cur.h.ops, p)
@@ -613,6 +676,9 @@ func runHistory(h hist) *result {
 // observeQuiet checks that an object that was NOT operated on is bit-identical to
 // its last observed state (independence of clones / builders); it records no new state.
 func (x *exec) observeQuiet(o *tracked, after string) {
+	if !stateHook {
+		return
+	}
 	if now := fieldsOf(o.typ, o.realStrobe()); now != o.snap {
 		x.fail("merlin/independence", "%s: real state changed by %s performed on ANOTHER object", o.role, after)
 		o.snap = now
@@ -681,9 +747,13 @@ func runLockstep(h hist) []failure {
 				}
 			}
 		}
-		a, ap, ab, af, _, _ := strobe.VerifFields(str(0))
-		b, bp, bb, bf, _, _ := strobe.VerifFields(str(1))
-		if !bytes.Equal(outs[0], outs[1]) || *a != *b || ap != bp || ab != bb || af != bf {
+		same := true
+		if stateHook {
+			a, ap, ab, af, _, _ := strobe.VerifFields(str(0))
+			b, bp, bb, bf, _, _ := strobe.VerifFields(str(1))
+			same = *a == *b && ap == bp && ab == bb && af == bf
+		}
+		if !bytes.Equal(outs[0], outs[1]) || !same {
 			fails = append(fails, failure{"merlin/determinism", fmt.Sprintf("two objects driven in lock-step through the same history diverge at step %d | history: %s", i, h)})
 			break
 		}
